@@ -95,6 +95,11 @@ CLAIMED = {
             '(one-token look-ahead), no non-terminal is called on a token it rejects, no token is consumed or down-cast unexamined; the precedence levels and node kinds of all 17 operators; all 41 node factories are overridden by the '
             'evaluable node of the same name; every node evaluates all operands in order with the core operation of its name. Two-token look-ahead (method declarations with primitive return type, call statements) and exactness of evaluated values beyond C15 are not decided.',
             'The punctuation table is frozen from the RIDDLE grammar in orv/rules/C16.py; keyword lexemes are derived from the enumerator names.', 'DESIGN.md 4 C16'),
+    'C17': ('traversal-completeness rules (breadth-first visit of all supertypes / included enums, no filter, no early exit), CFG ordering of the constructor phases, clause schemas of field access through object variables, sibling agreement of new_eq/equates',
+            'Static: instances, atoms and predicates are registered with every transitive supertype; existential variables range over all instances, enum variables over declared plus included values; constructors run supertypes, initialiser list, '
+            'defaults of unset fields and body in this order; a field read through an object variable is a derived variable tied to the field of every possible value, with mutually exclusive value groups; '
+            'non-assignable values of a formula argument are excluded; new_eq and equates analyse the same cases. Which instance a solution picks is not decided.',
+            'Rests on C14 (object variables) and C13 (disjunction) for the literals used.', 'DESIGN.md 4 C17'),
 }
 
 NOT_YET = {}
